@@ -140,3 +140,26 @@ func VerifC46Pick() {
 	}
 	verifObserve("len", uint64(len(got)))
 }
+
+// VerifC46Stable: the same key and topology give the same list on every call. Candidates sit on two NUMA nodes
+// that can both hold every routine, so the node choice is exercised; the call is repeated (natively Go randomises
+// map iteration per range statement; in the encoding every range over a map may run in either direction).
+func VerifC46Stable() {
+	c0, c1, c2, c3 := verifInt("cpu0", 1, 3), verifInt("cpu1", 4, 6), verifInt("cpu2", 7, 9), verifInt("cpu3", 10, 12)
+	cands := []int{c0, c1, c2, c3}
+	topo := topology{nodeOf: map[int]int{c0: 0, c1: 1, c2: 0, c3: 1}, coreOf: map[int]int{c0: 0, c1: 1, c2: 2, c3: 3}, zeroCore: -1}
+	routines := verifInt("routines", 1, 2)
+	h := verifU64("hash")
+	first := arrange(append([]int(nil), cands...), topo, routines, h)
+	verifAssert(len(first) == 2, "one NUMA node of two candidates is chosen")
+	for r := 0; r < 6; r++ {
+		again := arrange(append([]int(nil), cands...), topo, routines, h)
+		verifAssert(len(again) == len(first), "the list is the same for the same key and topology")
+		for i := 0; i < 2; i++ {
+			if i < len(first) && i < len(again) {
+				verifAssert(again[i] == first[i], "the list is the same for the same key and topology")
+			}
+		}
+	}
+	verifObserve("len", uint64(len(first)))
+}
